@@ -889,7 +889,7 @@ fn main() {
     }
 
     // 3. random rounds: random shape, sizes 1..=200 x 0..=260
-    let rounds = ctx.scale(8, 1500, 8000);
+    let rounds = ctx.scale(8, 9000, 30000);
     for _ in 0..rounds {
         for w in 0..6 {
             ctx.case(WNAMES[w], "random", "solve", |c| {
